@@ -143,7 +143,9 @@ CHECKS = {
                 text="Real btree_set/multiset/map/multimap facades with custom traits next to the std containers: BFS closure (mode A) for small capacities and key universes "
                      "((4,4) set K=12 quick / K=14 thorough with three-level trees, 6 capacities x 4 kinds x linear/binary search x less/greater in thorough, multi kinds with "
                      "multiplicity caps, two-tree configurations for copy/assign/swap) and depth-bounded BFS (mode B) from bulk_load(n) seeds for every (leaf,inner) in [4..9]^2 "
-                     "and the default traits; ops insert (plain and hinted), erase(key), erase_one, erase(iterator) at every position, clear, bulk_load of sorted sequences, "
+                     "and the default traits; closure over tree SHAPES (mode S, unique-key kinds): keys abstracted to ranks, every valid tree shape with at most N keys "
+                     "((4,4): N=25 quick / 28 thorough, six more capacities in thorough) expanded once with every rank-based insert/erase, which covers every sibling "
+                     "shift/merge case of three-level trees; ops insert (plain and hinted), erase(key), erase_one, erase(iterator) at every position, clear, bulk_load of sorted sequences, "
                      "copy-construct, assign, self-assign, swap; in every new state every query (exists/find/count/bounds/equal_range for all keys, forward and reverse "
                      "iteration, ++/-- round trips, all six relational operators, operator[], deep-copy independence) compared with the std container, equal-key runs as multisets.",
                 note="finite key universes / multiplicity caps as stated; mode B is depth-bounded (1-3); int and lifetime-tracked keys; comparators less/greater"),
